@@ -105,6 +105,60 @@ theorem exact_step {s s' : State} {op : Op} (hs : Inv s) (hx : EscrowExact s) (h
     split at h; · cases h
     cases h; exact hx
 
+/-! ### from the auxiliary identity to the escrow identity -/
+
+theorem exact_apply {s : State} {op : Op} (hs : Inv s) (hx : EscrowExact s) (hop : OpOk op) :
+    EscrowExact (apply s op) := by
+  unfold apply
+  cases h : step s op with
+  | ok s' => exact exact_step hs hx hop h
+  | error e => exact hx
+
+/-- auxiliary identity (with the vanishing self-recipient term) along histories -/
+theorem escrowExact_run (s : State) (ops : List Op) (hs : Inv s) (hx : EscrowExact s)
+    (hops : ∀ op ∈ ops, OpOk op) : EscrowExact (run s ops) := by
+  induction ops generalizing s with
+  | nil => exact hx
+  | cons op r ih =>
+    have hop := hops op (by simp)
+    exact ih (apply s op) (inv_apply hs hop) (exact_apply hs hx hop) (fun o ho => hops o (by simp [ho]))
+
+theorem stranded_zero {s : State} (hwf : WF s) (hn : NoSelf s) (d : Denom) : strandedSum s d = 0 := by
+  unfold strandedSum
+  apply sumBy_eq_zero _ _ hwf.1
+  intro k c hg
+  have := hn k c hg
+  simp [strandedAmt, this]
+
+theorem exact_of_eq {s : State} (hwf : WF s) (hn : NoSelf s) (he : EscrowEq s) : EscrowExact s := by
+  intro d; rw [stranded_zero hwf hn d]; exact he d
+
+theorem eq_of_exact {s : State} (hwf : WF s) (hn : NoSelf s) (hx : EscrowExact s) : EscrowEq s := by
+  intro d; have := hx d; rw [stranded_zero hwf hn d] at this; exact this
+
+theorem noSelf_apply {s : State} {op : Op} (hs : Inv s) (hn : NoSelf s) : NoSelf (apply s op) := by
+  intro id c' hg'
+  cases hg : AMap.get? s.htlcs id with
+  | some c =>
+    obtain ⟨c1, hg1, t⟩ := apply_trans (op := op) hs hg
+    rw [hg'] at hg1; cases hg1
+    have hto := hn id c hg
+    cases t with
+    | stay => exact hto
+    | claimed _ _ _ _ _ => simpa [completed] using hto
+    | refunded _ _ => simpa [refunded] using hto
+  | none =>
+    unfold apply at hg'
+    cases h : step s op with
+    | error e => rw [h] at hg'; simp only at hg'; rw [hg] at hg'; cases hg'
+    | ok s' =>
+      rw [h] at hg'; simp only at hg'
+      rcases step_absent hs h hg with h0 | ⟨sender, to, coins, lock, ts, tl, tr, dir, rfl, _, h1⟩
+      · rw [h0] at hg'; cases hg'
+      · rw [h1] at hg'; cases hg'
+        simp only [step] at h
+        simpa [newContract] using stepCreate_to h
+
 /-! ### `LimitInv` -/
 
 /-- limits survive any change of the supply table that does not raise `current + incoming`
